@@ -38,20 +38,32 @@ fn scenario<W: Send, R: Send>(name: &str, w: W, wait: impl FnOnce(W) -> R + Send
     let r = thread::scope(|s| {
         let lw = l.clone();
         let h = s.spawn(move || { lw.who.set(thread::current().id()).unwrap(); wait(w) });
+        // the waiter goes round its loop several hundred times before anything is delivered (a wait that gives up, or fails, after a
+        // number of unsuccessful looks is seen here)
         let deadline = Instant::now() + Duration::from_secs(90);
-        while l.loads.load(SeqCst) < 3 {
-            if h.is_finished() { fail(name, "wait_for returned although fewer items than requested were available".into()); }
+        let mut early = false;
+        while l.loads.load(SeqCst) < 600 {
+            if h.is_finished() { early = true; break; }
             if Instant::now() > deadline { fail(name, "the waiting thread never looked at its successor's index".into()); }
             thread::yield_now();
         }
-        inspect();
-        deliver();
-        let deadline = Instant::now() + Duration::from_secs(90);
-        while !h.is_finished() {
-            if Instant::now() > deadline { fail(name, "wait_for did not return after the awaited items were published".into()); }
-            thread::yield_now();
+        if !early {
+            inspect();
+            deliver();
+            let deadline = Instant::now() + Duration::from_secs(90);
+            while !h.is_finished() {
+                if Instant::now() > deadline { fail(name, "wait_for did not return after the awaited items were published".into()); }
+                thread::yield_now();
+            }
         }
-        h.join().unwrap()
+        match h.join() {
+            Err(e) => {
+                let msg = e.downcast_ref::<String>().cloned().or_else(|| e.downcast_ref::<&str>().map(|x| x.to_string())).unwrap_or_default();
+                fail(name, format!("wait_for PANICKED while waiting (after {} looks): {}", l.loads.load(SeqCst), msg.replace('\n', " ")))
+            }
+            Ok(_) if early => fail(name, "wait_for returned although fewer items than requested were available".into()),
+            Ok(r) => r,
+        }
     });
     verif_hooks::set_listener(None);
     let evs = l.evs.lock().unwrap();
